@@ -6,6 +6,9 @@ from harness.c12 import manager_sems_full
 from vlib import fakes as F
 from vlib import ns
 
+# private-attribute groups (vlib/layout.py) the obligations of this module depend on
+LAYOUT = ['manager', 'coord', 'task', 'bex', 'tasksem', 'sws']
+
 EXPLANATION = (
     'C18: three transfers of different types (stream upload, download to a path, copy / delete) share one real '
     'TransferManager over model executors (engine NS).  Which of them fails (a fault at a symbolic environment-call '
